@@ -70,13 +70,27 @@ def py_eval(s):
         return ('err', 'other:' + type(e).__name__)
 
 
-def close(a, b):
+def close(a, b, scale=1.0):
+    """scale = magnitude of the largest intermediate value (cancellation makes the absolute error proportional to it)"""
     if isinstance(a, complex):
         if abs(a.imag) > 1e-9 * max(1, abs(a.real)):
             return False
         a = a.real
     b = float(b)
-    return abs(a - b) <= 1e-9 * max(abs(a), abs(b)) + 1e-12
+    return abs(a - b) <= 1e-9 * max(abs(a), abs(b)) + 1e-10 * max(1.0, scale)
+
+
+def leaf_scale(s):
+    """crude bound on intermediate magnitudes: only used to widen the absolute tolerance"""
+    return 1e7 if ('k' in s or 'M' in s or 'e' in s.lower()) else 1e3
+
+
+def noise(got, verdict):
+    """float rounding can turn an exact 0 denominator into a tiny one (huge value) and vice versa: not a disagreement"""
+    if verdict == 'divzero' and got[0] == 'val':
+        v = got[1]
+        return abs(v) > 1e8 or v != v
+    return False
 
 
 # ---------- independent precedence-climbing evaluator for flat token sequences (oracle) ----------
@@ -97,7 +111,7 @@ def pc_eval(toks, env):
             v = summ()
             assert eat() == ')'
             return v
-        return env[t] if t in env else G.num_value(t)
+        return G._t(env[t] if t in env else G.num_value(t))
 
     def power():
         b = atom()
@@ -111,7 +125,7 @@ def pc_eval(toks, env):
                 raise G.OOM()
             if x < 0 and b == 0:
                 raise G.DivZero()
-            return b ** int(x)
+            return G._t(b ** int(x))
         return b
 
     def negation():
@@ -132,7 +146,7 @@ def pc_eval(toks, env):
         s = sum(1 / v for v in vs)
         if s == 0:
             raise G.DivZero()
-        return 1 / s
+        return G._t(1 / s)
 
     def product():
         v = parallel()
@@ -142,9 +156,9 @@ def pc_eval(toks, env):
             if op == '/':
                 if w == 0:
                     raise G.DivZero()
-                v = v / w
+                v = G._t(v / w)
             else:
-                v = v * w
+                v = G._t(v * w)
         return v
 
     def summ():
@@ -154,7 +168,7 @@ def pc_eval(toks, env):
         while peek() in ('+', '-'):
             op = eat()
             w = product()
-            v = v + w if op == '+' else v - w
+            v = G._t(v + w if op == '+' else v - w)
         return v
     v = summ()
     assert pos[0] == len(toks)
@@ -162,8 +176,12 @@ def pc_eval(toks, env):
 
 
 def oracle_value(fn):
+    G.track_reset()
     try:
-        return ('val', fn())
+        v = fn()
+        if G.TRACK['max'] > Fraction(10) ** 100 or (G.TRACK['min'] is not None and G.TRACK['min'] < Fraction(1, 10 ** 100)):
+            return ('oom', None)       # some intermediate value is outside the comfortable double range
+        return ('val', v)
     except G.OOM:
         return ('oom', None)
     except G.DivZero:
@@ -178,13 +196,18 @@ def check_value(ctx, s, want, case, pending):
     if want[0] == 'val':
         if abs(want[1]) > Fraction(10) ** 15 or (want[1] != 0 and abs(want[1]) < Fraction(1, 10 ** 15)):
             ctx.count('skipped_magnitude')
-        elif got[0] != 'val' or not close(got[1], want[1]):
+        elif got == ('err', 'divzero') and abs(want[1]) > 10 ** 8:
+            ctx.count('float_noise')
+        elif got[0] != 'val' or not close(got[1], want[1], leaf_scale(s)):
             ctx.violation('value differs from the mathematical value', case, impl=repr(got), expected=frac_to_str(want[1]))
     elif want[0] == 'err':
-        if got != ('err', want[1]):
+        if noise(got, want[1]):
+            ctx.count('float_noise')
+        elif got != ('err', want[1]):
             ctx.violation('expected a %s error' % want[1], case, impl=repr(got))
     else:
         ctx.count('oom_skipped')
+        return
     pending.append((s, got, case))
 
 
@@ -197,11 +220,13 @@ def flush_eval(ctx, pending):
             q = Fraction(o['out'])
             if abs(q) > Fraction(10) ** 15 or (q != 0 and abs(q) < Fraction(1, 10 ** 15)):
                 continue
-            if got[0] != 'val' or not close(got[1], q):
+            if got == ('err', 'divzero') and abs(q) > 10 ** 8:
+                continue
+            if got[0] != 'val' or not close(got[1], q, leaf_scale(s)):
                 ctx.disagree('evaluator value differs from the model value', case, repr(got), o['out'])
         else:
             k = o['err']
-            if k == 'oom':
+            if k == 'oom' or noise(got, k):
                 continue
             if got[0] == 'val' or got[1] != k:
                 ctx.disagree('model error %s, implementation %r' % (k, got), case, repr(got), k)
